@@ -427,6 +427,8 @@ impl Function {
         if let Val::String(s) = val {
             let mut s = s.trim();
             while let Some((idx, _)) = s.char_indices().last() {
+                #[cfg(feature = "verif")]
+                crate::verif::tick(crate::verif::SITE_FN_VAL);
                 let v = Val::from(s);
                 if !matches!(v, Val::String(_)) {
                     return Ok(v);
